@@ -183,6 +183,22 @@ var GposSimple = []Simple{
 			Mark2Array: [][]anchor.Table{{{X: 30, Y: 40}}},
 		}}
 	}},
+	{"GPOS4.1 three mark classes of which class 1 has no mark glyph", 4, func() []gtab.Subtable {
+		return []gtab.Subtable{&gtab.Gpos4_1{
+			MarkCov:   cov(GM, GN),
+			BaseCov:   cov(GA, GB),
+			MarkArray: []markarray.Record{{Class: 0, Table: anchor.Table{X: 10, Y: 20}}, {Class: 2, Table: anchor.Table{X: -5, Y: 3}}},
+			BaseArray: [][]anchor.Table{{{X: 250, Y: 700}, {X: 11, Y: 12}, {X: 260, Y: -50}}, {{X: 300, Y: 710}, {X: 13, Y: 14}, {X: 7, Y: 9}}},
+		}}
+	}},
+	{"GPOS6.1 two mark classes of which class 0 has no mark glyph", 6, func() []gtab.Subtable {
+		return []gtab.Subtable{&gtab.Gpos6_1{
+			Mark1Cov:   cov(GN),
+			Mark2Cov:   cov(GM),
+			Mark1Array: []markarray.Record{{Class: 1, Table: anchor.Table{X: 1, Y: 2}}},
+			Mark2Array: [][]anchor.Table{{{X: 99, Y: 98}, {X: 30, Y: 40}}},
+		}}
+	}},
 }
 
 // MakeLookup assembles a lookup table.
